@@ -80,6 +80,62 @@ def run(ctx):
             return None         # disjoint control boxes: the empty answer is available without the algebraic solve
         return "%s: expected NotImplementedError, got %s" % (c["why"], raw.get("exc") or "a normal return")
     sweep(ctx, "algebraic_refuses", bad, [("Curve.intersect", ic.intersect_args("ALGEBRAIC"))], judge_bad)
+    # ---- triangle pairs (degree 1..2: every edge pair has degree product <= 4): the two strategies must return the same regions.
+    # Families: nested (one strictly inside the other, both orders), crossing, disjoint, sharing a corner region
+    def tri1(p0, p1, p2):
+        return [[p0[0], p1[0], p2[0]], [p0[1], p1[1], p2[1]]]
+    def tri2(p0, p1, p2, bump):
+        mid = lambda a, b, k: ((a[0] + b[0]) / 2 + bump[k][0], (a[1] + b[1]) / 2 + bump[k][1])
+        m01, m02, m12 = mid(p0, p1, 0), mid(p0, p2, 1), mid(p1, p2, 2)
+        return [[p0[0], m01[0], p1[0], m02[0], m12[0], p2[0]], [p0[1], m01[1], p1[1], m02[1], m12[1], p2[1]]]
+    tcases = []
+    for rep in range(10 if ctx.quick() else 200):
+        o = (F(rng.randint(-4, 4), 2), F(rng.randint(-4, 4), 2))
+        big = [o, (o[0] + 8, o[1] + F(rng.randint(-2, 2), 2)), (o[0] + F(rng.randint(-2, 2), 2), o[1] + 8)]
+        fam = rng.choice(["nested", "nested", "crossing", "disjoint"])
+        if fam == "nested":
+            c_ = (o[0] + 2, o[1] + 2)
+            small = [c_, (c_[0] + F(rng.randint(2, 4), 2), c_[1] + F(rng.randint(0, 1), 2)), (c_[0] + F(rng.randint(0, 1), 2), c_[1] + F(rng.randint(2, 4), 2))]
+        elif fam == "crossing":
+            c_ = (o[0] + F(rng.randint(4, 12), 2), o[1] + F(rng.randint(-4, 4), 2))
+            small = [c_, (c_[0] + 4, c_[1] + 1), (c_[0] + 1, c_[1] + 5)]
+        else:
+            c_ = (o[0] + 20, o[1] + 20)
+            small = [c_, (c_[0] + 2, c_[1]), (c_[0], c_[1] + 2)]
+        for (da, db) in ((1, 1), (2, 1), (1, 2), (2, 2)):
+            bump = [(F(rng.randint(-1, 1), 8), F(rng.randint(-1, 1), 8)) for _ in range(3)]
+            A = tri1(*big) if da == 1 else tri2(*big, bump)
+            B = tri1(*small) if db == 1 else tri2(*small, [(x / 4, y / 4) for x, y in bump])
+            for first, second in ((A, B), (B, A)):
+                tcases.append({"t1": first, "t2": second, "kind": fam, "degrees": (da, db)})
+    def summary(raw):
+        if "exc" in raw:
+            return ("exc", raw["exc"])
+        out = []
+        for r in dec_res(raw["ok"]):
+            if r[0] == "triangle":
+                out.append(("triangle", tuple(tuple(x) for x in r[1])))
+            else:
+                out.append(("polygon", len(r[2]), r[1]))
+        return tuple(sorted(out, key=str))
+    tstats = {"cases": len(tcases), "failures": 0, "kind": "support sweep: triangle pairs (degree 1-2), GEOMETRIC vs ALGEBRAIC regions"}
+    for cfg in ("pure", "speedup"):
+        g = run_impl_parallel(cfg, [{"op": "Triangle.intersect_summary", "args": [enc_arr(c["t1"]), enc_arr(c["t2"]), "GEOMETRIC"]} for c in tcases])
+        a = run_impl_parallel(cfg, [{"op": "Triangle.intersect_summary", "args": [enc_arr(c["t1"]), enc_arr(c["t2"]), "ALGEBRAIC"]} for c in tcases])
+        for c, rg, ra in zip(tcases, g, a):
+            sg, sa = summary(rg), summary(ra)
+            same = len(sg) == len(sa) and all(x[0] == y[0] and (x[0] != "polygon" or (x[1] == y[1] and abs(x[2] - y[2]) <= F(1, 2 ** 20) * max(abs(x[2]), 1))) for x, y in zip(sg, sa)) if sg and sa and sg[0] != "exc" and sa[0] != "exc" else sg == sa
+            if sa and sa[0] == "exc" and sa[1] == "NotImplementedError":
+                continue            # the algebraic strategy may refuse (documented)
+            nested_wrong = c["kind"] == "nested" and sg and sg[0] != "exc" and len(sg) != 1
+            if not same or nested_wrong:
+                tstats["failures"] += 1
+                if tstats["failures"] <= 3:
+                    ctx.violations.append({"kind": "property-fails-on-implementation", "sweep": "triangle_strategies_agree", "config": cfg,
+                                           "op": "Triangle.intersect", "case": c, "implementation_returned": {"geometric": rg, "algebraic": ra},
+                                           "verdict": "triangle pair (%s, degrees %s): the strategies return different regions (geometric %d, algebraic %d)%s" % (
+                                               c["kind"], c["degrees"], len(sg), len(sa), "; a nested pair must give exactly the inner triangle" if nested_wrong else "")})
+    ctx.corr["sweep:triangle_strategies_agree"] = tstats
     ctx.samples.append({"sweep": "strategies_agree", "case": cases[0] if cases else {}})
     return finish(ctx, "PROVED (algebraic side, regenerated functions): to_power_basis accepts exactly the eight documented degree pairs; for "
                   "degree product <= 4 the interpolation is exact (K times the intersection polynomial), and the implicit curve of degree "
